@@ -12,6 +12,12 @@ CHECKS = {
          "Trusts the reference varint codec (self-checked at setup); int64/float64 are covered on boundary sets only.", "DESIGN.md §4 C17"),
 }
 CHECKS.update({
+ "C14": (True, "exploration", "bounded-exhaustive enumeration of schema ASTs x key orders x layouts x extra attributes; reference JSON parser/printer as oracle",
+         "Every schema AST up to nesting depth 2 (3 in thorough) over all supported attributes is rendered under 24 key orderings, 3 layouts and with 9 kinds of extra attribute at every object; the parse result is compared structurally with the expected schema, Marshal output is validated with encoding/json, re-parsed by an independent parser and by the library (round-trip identity); every truncation / structural-token deletion or duplication of the small documents must be rejected.",
+         "Depth bound; nil/empty Object and slices identified; malformed = rejected by encoding/json.", "DESIGN.md §4 C14"),
+ "C15": (True, "exploration", "bounded-exhaustive enumeration of Go struct types against the documented mapping written as a total specification function; worker isolation for non-termination",
+         "~1,600 struct types (84 field types x 15 tag combinations, multi-field shapes, nested wrappers, embedded fields, repeated named structs, 7 self-referential shapes; all ordered pairs in thorough) are given to SchemaForType; the result must equal the documented mapping (spec.SchemaFor), be structurally valid, be deterministic, and Schema.Codec on it must return without panic; self-referential types run in their own worker with a bounded stack so non-termination is observed as a violation.",
+         "Go arrays and duplicate JSON names are not judged (mapping silent); anonymous structs exempt from the named-type rule.", "DESIGN.md §4 C15"),
  "C18": (True, "exploration", "bounded-exhaustive grammar-product enumeration of timestamp strings through the public decode path, standard library as oracle",
          "An exhaustive product over the RFC 3339 grammar (calendar/time grid x every fraction digit string up to length 10/12 over a 2/3-digit alphabet x separators x 11 zones), all date-only strings of the grid, a format->parse identity sweep and every truncation / single-character mutation of six valid timestamps, all pushed through the real codec (string field -> time.Time / null.Time). Whenever the string matches the grammar and time.Parse accepts it, instant and offset must agree; no string may panic.",
          "Oracle is time.Parse(RFC3339) restricted to the RFC 3339 grammar; digit alphabets are bounded.", "DESIGN.md §4 C18"),
